@@ -203,3 +203,6 @@ impl E {
     pub fn multi_pairing(a: Vec<G1Prepared>, b: Vec<G2Prepared>) -> (r: GT)
         ensures r@ == dot(g1prep_views(a@), g2prep_views(b@), min(a@.len(), b@.len())) { unimplemented!() }
 }
+// ark-ff `Sum` for field elements: fold from zero with +   (rewrite R7 turns `iter.sum()` into collect + sum_vec)
+pub open spec fn fsum(s: Seq<FS>, n: nat) -> FS decreases n { if n == 0 { f_zero() } else { f_add(fsum(s, (n - 1) as nat), s[n - 1]) } }
+#[verifier::external_body] pub fn sum_vec(v: &Vec<Fr>) -> (r: Fr) ensures r@ == fsum(fviews(v@), v@.len()) { unimplemented!() }
